@@ -56,6 +56,12 @@ def doc_messages(doc):
 def run(ctx):
     model = ctx.model
     paths = model.paths("ws:onMessage")
+    from . import shared as _sh
+    _sh.r_present(ctx, "R17.present", ("bind", "claim", "release", "open", "add", "close"),
+                  "a well-formed command is answered with an error about a missing field")
+    _sh.r_convert(ctx, "R17.convert", ["ws:onMessage", "ws:onOpen", "ws:onClose"],
+                  "the handler fails internally, the command gets no answer and the "
+                  "connection is dropped")
     ctx.rule("R17.welcome", "the first frame of a connection is welcome carrying the "
              "configured notices")
     ctx.rule("R17.ack", "with `type` present the ack (id echoed) precedes every other "
@@ -378,20 +384,39 @@ def run(ctx):
         ctx.ob("R17.alive", "module %s never drops a connection" % mod.name, not bad,
                "%s:%d" % (mod.path, bad[0].lineno) if bad else mod.path,
                "" if not bad else "call of %s" % bad[0].attr)
-    # transport options fixed in the code: anything but the keep-alive pings
-    # restricts which well-formed frames are accepted (size limits make
-    # Autobahn fail the connection on a large `add`)
-    for mod in ctx.repo.modules.values():
-        for n in ast.walk(mod.tree):
-            if isinstance(n, ast.Call) and isinstance(n.func, ast.Attribute) and \
-                    n.func.attr == "setProtocolOptions":
-                extra = [k.arg for k in n.keywords
-                         if k.arg is not None and not k.arg.startswith("autoPing")]
-                ctx.ob("R17.alive", "module %s: protocol options at line %d" % (
-                    mod.name, n.lineno), not extra, "%s:%d" % (mod.path, n.lineno),
-                    "" if not extra else "the server hard-codes %s: a well-formed command "
-                    "that exceeds the limit makes Autobahn drop the connection instead of "
-                    "being acknowledged and answered" % ", ".join(extra))
+    _sh.r_options(ctx, "R17.alive", "a well-formed command that exceeds the limit makes "
+                  "Autobahn drop the connection instead of being acknowledged and answered")
+    # -- the connection's handles (namespace, mailbox) start as None and are
+    # cleared again: a method call on the value a handler finds in such an
+    # attribute must be dominated by a test of that value
+    nh = 0
+    seen_h = set()
+    for en in model.WS_ENTRIES:
+        for p in model.paths(en):
+            first = set()
+            for e, _ in all_events(p, ("call",)):
+                st = e.get("self_term")
+                if not (st and st[0] == "obj" and isinstance(st[2], tuple) and st[2] and
+                        st[2][0] == "held" and st[2][1] == ("conn",)):
+                    continue
+                if st in first:
+                    continue      # an earlier call on it returned: it is an object
+                first.add(st)
+                nh += 1
+                ok = pc_truth(e["pc"]).get(st) is True
+                key = (e["site"][:2], ok)
+                if key in seen_h:
+                    continue
+                seen_h.add(key)
+                ctx.ob("R17.escape", "%s: %s is tested before %s is called on it" % (
+                    e["func"], st[2][2], e["callee"].split(".")[-1]), ok, e,
+                    "" if ok else "the handler calls %s on the connection's %s without a test "
+                    "of that handle on the path: it is None before the first %s and after "
+                    "the handle was cleared, so the call raises AttributeError, the command "
+                    "gets no answer and the connection is dropped" % (
+                        e["callee"], st[2][2], "open" if st[1] == "Mailbox" else "bind"),
+                    None if ok else render_path(p.events))
+    ctx.require("R17.escape", nh, 5, "method calls on the connection's handles")
     # -- escape
     guard_ok = _allocate_guard_ok(ctx)
     nesc = 0
